@@ -5,8 +5,66 @@ use std::cell::{Cell, RefCell};
 use std::rc::Rc;
 use std::time::Duration;
 
-pub use shuttle::thread::{current, yield_now, JoinHandle, Thread, ThreadId};
-pub use std::thread::panicking;
+pub use shuttle::thread::{current, yield_now, Thread, ThreadId};
+use shuttle_engine::contained_unwind;
+use std::collections::BTreeSet;
+
+/// Payload of a simulated crash (see [`crash`]).
+pub struct InjectedCrash;
+
+thread_local! {
+    /// tasks that are unwinding because of an injected crash
+    static CRASHING: RefCell<BTreeSet<usize>> = const { RefCell::new(BTreeSet::new()) };
+}
+
+/// `std::thread::panicking()` for simulated threads: true while *this* task unwinds (because of
+/// an injected crash or of a genuine panic). All tasks share one OS thread, so std's own answer
+/// would also be true in every other task that runs while a crashed task's drop handlers are
+/// blocked on a lock.
+pub fn panicking() -> bool {
+    CRASHING.with(|c| c.borrow().contains(&crate::me_usize())) || contained_unwind::panicking()
+}
+
+/// Fault `task_panic`: the calling simulated thread crashes here - it unwinds like a panicking
+/// thread (drop handlers of the code under test run, `panicking()` is true in them) and the
+/// unwind is caught at the thread's entry point, so the execution goes on without this thread.
+pub fn crash() -> ! {
+    CRASHING.with(|c| c.borrow_mut().insert(crate::me_usize()));
+    contained_unwind::enter();
+    crate::count_fault(Fault::TaskPanic);
+    crate::event("task_crash", crate::me_usize() as u64, 0);
+    // resume_unwind: no panic hook, no message; the payload marks the unwind as ours
+    std::panic::resume_unwind(Box::new(InjectedCrash))
+}
+
+/// Runs a thread body; an injected crash ends here (returns `None`), anything else goes on up.
+fn run_contained<F: FnOnce() -> T, T>(f: F) -> Option<T> {
+    match std::panic::catch_unwind(std::panic::AssertUnwindSafe(f)) {
+        Ok(v) => Some(v),
+        Err(p) if p.is::<InjectedCrash>() => {
+            CRASHING.with(|c| c.borrow_mut().remove(&crate::me_usize()));
+            contained_unwind::exit();
+            crate::probe("thread_crash_contained");
+            None
+        }
+        Err(p) => std::panic::resume_unwind(p),
+    }
+}
+
+/// Handle on a simulated thread; `join` reports a crashed thread like std reports a panicked one.
+pub struct JoinHandle<T>(shuttle::thread::JoinHandle<Option<T>>);
+impl<T> JoinHandle<T> {
+    pub fn join(self) -> std::thread::Result<T> {
+        match self.0.join() {
+            Ok(Some(v)) => Ok(v),
+            Ok(None) => Err(Box::new("simulated thread crashed")),
+            Err(e) => Err(e),
+        }
+    }
+    pub fn thread(&self) -> &Thread {
+        self.0.thread()
+    }
+}
 
 /// Upper bound on threads the code under test may create in one execution.
 pub const MAX_THREADS_PER_EXECUTION: usize = 400;
@@ -17,6 +75,7 @@ thread_local! {
     static EXIT_WAITERS: RefCell<Vec<TaskId>> = const { RefCell::new(Vec::new()) };
 }
 pub(crate) fn reset() {
+    CRASHING.with(|c| c.borrow_mut().clear());
     LIVE.with(|l| l.set(0));
     SPAWNED.with(|l| l.set(0));
     EXIT_WAITERS.with(|w| w.borrow_mut().clear());
@@ -85,10 +144,11 @@ impl Builder {
             b = b.name(n);
         }
         b.spawn(move || {
-            let r = f();
+            let r = run_contained(f);
             thread_exit();
             r
         })
+        .map(JoinHandle)
     }
 }
 #[track_caller]
@@ -99,11 +159,11 @@ where
 {
     LIVE.with(|l| l.set(l.get() + 1));
     SPAWNED.with(|l| l.set(l.get() + 1));
-    shuttle::thread::spawn(move || {
-        let r = f();
+    JoinHandle(shuttle::thread::spawn(move || {
+        let r = run_contained(f);
         thread_exit();
         r
-    })
+    }))
 }
 
 /// Sleeps for `d` of simulated time (a timer on the simulated clock).
